@@ -1,5 +1,6 @@
 import GoSSE.Proofs.MessageRoundTrip
 import GoSSE.Proofs.GenEquivWrite
+import GoSSE.Proofs.GenEquivUnmarshal
 import GoSSE.Props.C02
 /-!
 # C15 — message text round trip and exact byte accounting
@@ -160,6 +161,33 @@ theorem translated_WriteTo_returns {σ : Type} (fuel : Nat) (w : Writer σ Strin
   rw [GenEquiv.WriteTo_eq fuel w st m hf hc]
   unfold GenEquiv.okOrPanic GenEquiv.okOf
   rw [GoSSE.Props.C02.writeTo_never_panics w st m hm]
+  rfl
+
+
+/-- `Message.UnmarshalText` *as translated from message.go* — `reset`, the field-parser loop with its `switch` (a
+`break` that leaves the switch, the labelled `break loop`), the retry checks (first non-digit, `strconv.ParseInt`,
+the `int64` multiplication by `time.Millisecond` with wrap-around), the final emptiness test — returns, for **every**
+text and whatever the receiver held before, the model's receiver and the model's error class; it does not panic
+and its loop ends. -/
+theorem translated_UnmarshalText_is_model (fuel : Nat) (e : Gen.Message) (p : Bytes) (hf : p.length + 2 < fuel) :
+    Gen.Message_UnmarshalText fuel e p =
+      .ok (GenEquiv.uErrStr (Message.unmarshalText p).2, GenEquiv.toGenMsg (Message.unmarshalText p).1) :=
+  GenEquiv.Message_UnmarshalText_eq fuel e p hf
+
+/-- The round trip, on the translated decoding side: for every message built through the public API with at least
+one field and no NUL in its ID, the translated `UnmarshalText` applied to the model's `MarshalText` (which the
+translated `WriteTo` is proved to produce, `translated_WriteTo_is_model`) returns no error and the normalised
+message. -/
+theorem translated_unmarshal_marshal (fuel : Nat) (e : Gen.Message) (ops : List BuildOp) (hv : ∀ op ∈ ops, BuildOp.Valid op)
+    (hf : hasField (build ops) = true) (hnul : (build ops).id.set = true → (build ops).id.value.contains 0 = false)
+    (hfuel : (build ops).marshalText.length + 2 < fuel) :
+    Gen.Message_UnmarshalText fuel e (build ops).marshalText = .ok (none, GenEquiv.toGenMsg (normalise (build ops))) := by
+  rw [GenEquiv.Message_UnmarshalText_eq fuel e _ hfuel, unmarshal_marshal ops hv hf hnul]
+  rfl
+
+example : Gen.Message_UnmarshalText 40 default [105, 100, 58, 32, 55, 10, 100, 97, 116, 97, 58, 32, 120, 10, 10] =
+    .ok (none, { chunks := [{ content := [120], isComment := false }], ID := { messageField := { value := [55], set := true } },
+                 Type' := { messageField := { value := [], set := false } }, Retry := 0 }) := by
   rfl
 
 end GoSSE.Props.C15
